@@ -78,7 +78,8 @@ def far_recipe(cls, rng, tier):
     if cls == "c03":
         r = m.gen_vhdx.gen_recipe(rng, "quick", depth=1, big=rng.random() < 0.3)
         l = r["layers"][0]
-        F = rng.choice([F32, 1 << 36, 1 << 40, 1 << 43])
+        # (FileOffsetMB is 44 bits wide: file offsets up to 2^64; 16 TiB = 2^24 MiB is where a 24-bit decoding would wrap)
+        F = rng.choice([F32, 1 << 36, 1 << 40, 1 << 43, 1 << 44, (1 << 44) + (5 << 20), 1 << 50, 1 << 62])
         K = F // l["bs"] + 1
         l["phys"] = {k: v + K for k, v in l["phys"].items()}
         return r, 1 << 20, False
